@@ -20,7 +20,13 @@
 (*   split   lena/core/split.py Split.run: no branches (identity), per     *)
 (*           value branches, Sequence branches run per block (seqbr,       *)
 (*           seqsum, nested Split), fill/compute branches (sum, fcsum);    *)
-(*           bufsize a number or None (the whole flow is one block)        *)
+(*           bufsize a number or None (the whole flow is one block);       *)
+(*           copy_buf TRUE / FALSE (the branches get copies of the block   *)
+(*           or the block itself: the same stream transformation)          *)
+(*   hosted  any of the above given as an object whose class is also a     *)
+(*           tuple (named tuple) / list / dict subclass or compares equal  *)
+(*           to everything: what makes an element is its run / __call__ /  *)
+(*           fill+compute, the rest of its class is irrelevant             *)
 (***************************************************************************)
 EXTENDS Integers, Sequences, FiniteSets, TLC
 
@@ -71,6 +77,7 @@ Pred(p, v) == CASE p = "even" -> v.d % 2 = 0
 (***************************************************************************)
 Map(f) == [t |-> "map", f |-> f]
 NoData == [t |-> "nodata"]                \* SetContext("s", 1): takes no part in the flow
+NoDataK(k) == [t |-> "nodata", k |-> k]   \* k = "store": StoreContext(); k = "set2": SetContext("d.e", "f")
 Filter(p) == [t |-> "filter", p |-> p]
 Slice(a, b, s) == [t |-> "slice", a |-> a, b |-> b, s |-> s]   \* non-negative, itertools.islice
 LagK(k) == [t |-> "lagk", k |-> k]        \* Slice(-k): all but the last k
@@ -90,13 +97,22 @@ Sum == [t |-> "sum"]                      \* fill/compute accumulator run throug
 Last == [t |-> "last"]                    \* user fill/compute element: yields the last filled value
 LastAttr == [t |-> "lastattr"]            \* the same with a data attribute named run (run = "2023A")
 \* branches: Map(f) | Filter(p) | Sum | SeqSum(f) | FcSum(f) | SeqBr(body) | Bad(k); bs: a number or None
-SplitSt(brs, bs) == [t |-> "split", brs |-> brs, bs |-> bs]
+\* cb: Split(..., copy_buf=cb).  The branches of the vocabulary do not change the values they are given in
+\* place, so the stream transformation and the pull schedule are the same for both settings.
+SplitC(brs, bs, cb) == [t |-> "split", brs |-> brs, bs |-> bs, cb |-> cb]
+SplitSt(brs, bs) == SplitC(brs, bs, TRUE)
 SeqSum(f) == [t |-> "seqsum", f |-> f]      \* the Sequence object (f, Sum()) as a branch
 FcSum(f) == [t |-> "fcsum", f |-> f]        \* the tuple (f, Sum()) as a branch: a fill/compute sequence
 SeqBr(body) == [t |-> "seqbr", body |-> body]   \* Sequence(*body) of reusable stages as a branch (run per block)
 Bad(k) == [t |-> "bad", k |-> k]          \* not convertible to an element
+\* the element el given as an object of a class that is ALSO something else.  h: "nt" a named tuple whose fields
+\* are numbers (parameters of the element), "ntf" a named tuple whose fields are other callables, "list" a list
+\* subclass holding a callable, "dict" an (empty, hence false) dict subclass, "eq" an object equal to everything.
+\* It is the same element: all of the semantics below go through Core.
+Hosted(h, el) == [t |-> "hosted", h |-> h, el |-> el]
+Core(st) == IF st.t = "hosted" THEN st.el ELSE st
 
-Streaming(st) == st.t \in {"map", "nodata", "filter", "slice", "lagk", "nslice", "count", "runif", "split"}
+Streaming(st) == Core(st).t \in {"map", "nodata", "filter", "slice", "lagk", "nslice", "count", "runif", "split"}
 
 \* which branch of Slice._run_negative_islice applies
 NsBranch(st) == IF st.a = None THEN "A"                  \* only a negative stop
@@ -106,7 +122,7 @@ NsBranch(st) == IF st.a = None THEN "A"                  \* only a negative stop
                 ELSE IF st.b < 0 THEN "C3"               \* start < stop < 0
                 ELSE "C4"                                \* start < 0 <= stop
 
-InitLoc(st) ==
+InitLoc0(st) ==
   CASE st.t = "slice" -> [cnt |-> 0, nxt |-> st.a]
     [] st.t \in {"lagk", "lastk"} -> [dq |-> <<>>, got |-> 0, put |-> 0]
     [] st.t = "nslice" -> [dq |-> <<>>, got |-> 0, ny |-> 0, dead |-> FALSE]
@@ -177,7 +193,7 @@ SplitFinal(st, loc, j) == IF j > Len(st.brs) THEN <<>>
         \o SplitFinal(st, loc, j + 1)
 
 \* [loc, em]: new local state and emitted values when the stage receives v
-OnHave(st, loc, v) ==
+OnHave0(st, loc, v) ==
   CASE st.t \in {"map"} -> [loc |-> loc, em |-> <<ApplyMap(st.f, v)>>]
     [] st.t = "nodata" -> [loc |-> loc, em |-> <<v>>]
     [] st.t = "filter" -> [loc |-> loc, em |-> IF Pred(st.p, v) THEN <<v>> ELSE <<>>]
@@ -226,7 +242,7 @@ OnHave(st, loc, v) ==
               ELSE [loc |-> l2, em |-> <<>>]
 
 \* values emitted when the stage finds its input exhausted
-OnEof(st, loc) ==
+OnEof0(st, loc) ==
   CASE st.t = "count" -> IF loc.has THEN <<[loc.prev EXCEPT !.c = (@ \ CountMarks) \cup {CountMark(loc.n)}, !.h = TRUE]>> ELSE <<>>
     [] st.t = "lastk" -> loc.dq
     [] st.t = "nslice" ->
@@ -243,8 +259,14 @@ OnEof(st, loc) ==
     [] OTHER -> <<>>
 
 \* the stage stops without asking its input again
-EarlyDone(st, loc) == \/ st.t = "slice" /\ st.b # None /\ loc.cnt >= loc.nxt /\ loc.cnt >= st.b
-                      \/ st.t = "nslice" /\ (NsBranch(st) = "C2" \/ loc.dead)
+EarlyDone0(st, loc) == \/ st.t = "slice" /\ st.b # None /\ loc.cnt >= loc.nxt /\ loc.cnt >= st.b
+                       \/ st.t = "nslice" /\ (NsBranch(st) = "C2" \/ loc.dead)
+
+\* a hosted element is the element
+InitLoc(st) == InitLoc0(Core(st))
+OnHave(st, loc, v) == OnHave0(Core(st), loc, v)
+OnEof(st, loc) == OnEof0(Core(st), loc)
+EarlyDone(st, loc) == EarlyDone0(Core(st), loc)
 
 (***************************************************************************)
 (* Declarative semantics.                                                  *)
@@ -272,9 +294,10 @@ SemR(prog, xs) == PipeRun(prog, xs, TRUE).out
 \* the failing value was asked for.  fails: the input of the rest of the pipeline raises instead of ending.
 RECURSIVE PipeRunF(_, _, _)
 \* the stage raises when it is given v: the callable itself, or a RunIf that selects v and whose arguments raise
-FailsOn(st, v) == CASE st.t = "raiser" -> v.d = st.at
-                    [] st.t = "runifs" -> Pred(st.p, v) /\ PipeRunF(st.body, <<v>>, FALSE).failed
-                    [] OTHER -> FALSE
+FailsOn(hst, v) == LET st == Core(hst) IN
+                   CASE st.t = "raiser" -> v.d = st.at
+                     [] st.t = "runifs" -> Pred(st.p, v) /\ PipeRunF(st.body, <<v>>, FALSE).failed
+                     [] OTHER -> FALSE
 RECURSIVE FirstFail(_, _, _)
 FirstFail(xs, st, i) == IF i > Len(xs) THEN 0 ELSE IF FailsOn(st, xs[i]) THEN i ELSE FirstFail(xs, st, i + 1)
 PipeRunF(prog, xs, fails) ==
@@ -303,15 +326,18 @@ HasBadSt(st) == \/ st.t = "bad"
                 \/ st.t = "runif" /\ st.f = "bad"
                 \/ st.t = "split" /\ \E j \in 1..Len(st.brs) : HasBadSt(st.brs[j])
                 \/ st.t \in {"seqbr", "runifs"} /\ \E j \in 1..Len(st.body) : HasBadSt(st.body[j])
+                \/ st.t = "hosted" /\ HasBadSt(st.el)
 \* the element keeps nothing between runs: the same object may be run again, also while an earlier run is suspended
 RECURSIVE Reusable(_)
 Reusable(st) == \/ st.t \in {"map", "nodata", "filter", "slice", "lagk", "lastk", "nslice", "runif", "reverse", "end"}
                 \/ st.t = "split" /\ \A j \in 1..Len(st.brs) : Reusable(st.brs[j])
                 \/ st.t \in {"seqbr", "runifs"} /\ \A j \in 1..Len(st.body) : Reusable(st.body[j])
+                \/ st.t = "hosted" /\ Reusable(st.el)
 \* input values a streaming stage documents to keep (liveness bound of C02): Split one block (while it reads the
 \* next block the previous one is still bound to a local name), Count and RunIf one value, a negative Slice |index|
 AbsNeg(i) == IF i # None /\ i < 0 THEN -i ELSE 0
-Retention(st) == CASE st.t = "split" -> IF st.brs = <<>> THEN 0 ELSE IF st.bs = None THEN Inf ELSE 2 * st.bs
+Retention(hst) == LET st == Core(hst) IN
+                 CASE st.t = "split" -> IF st.brs = <<>> THEN 0 ELSE IF st.bs = None THEN Inf ELSE 2 * st.bs
                    [] st.t \in {"lagk", "lastk"} -> st.k
                    [] st.t = "nslice" -> IF AbsNeg(st.a) > AbsNeg(st.b) THEN AbsNeg(st.a) ELSE AbsNeg(st.b)
                    [] st.t \in {"count", "runif"} -> 1
